@@ -10,8 +10,8 @@ for d in sorted(os.listdir(os.path.join(HERE, "seeded"))):
     m = json.load(open(mp))
     runs = {r["check"]: r for r in m.get("runs", [])}
     caught = ", ".join(f"{c} ({'; '.join(runs[c]['signatures'][:2])})" if c in runs and runs[c]["signatures"] else c for c in m.get("caught_by", []))
-    missed = ", ".join(r["check"] for r in m.get("runs", []) if r["exit"] != 1)
-    rows.append(f"| {d} | {m['breaks_property']} | {m.get('summary', '')} | {caught or '-'} | {missed or '-'} |")
+    missed = ", ".join(r["check"] + (" (exit %d)" % r["exit"] if r["exit"] not in (0, 1) else "") for r in m.get("runs", []) if r["exit"] != 1)
+    rows.append(f"| {d} | {m['breaks_property']} | {m.get('summary', '').replace('|', '/')} | {caught or '-'} | {missed or '-'} |")
 print("| seeded change | property | what it does / needs | caught by (quick tier; first signatures) | run and not caught by |")
 print("|---|---|---|---|---|")
 print("\n".join(rows))
